@@ -1149,6 +1149,8 @@ castcheck(struct type *to, struct type *from)
 {
 	if (to != &typevoid && !(from->prop & PROPSCALAR))
 		error(&tok.loc, "cast operand must have scalar type");
+	if (to->kind == TYPEPOINTER && from->prop & PROPFLOAT || to->prop & PROPFLOAT && from->kind == TYPEPOINTER)
+		error(&tok.loc, "cannot cast between pointer and floating types");
 }
 
 static struct expr *
